@@ -3,6 +3,8 @@ from runners.common import replay_with, standard_flow
 TRUSTED = [
     "bridge/symexec.py: symbolic execution of the lambdify-generated NumPy source on object arrays for one event "
     "(own einsum/select/array shims; SymPy's automatic scalar simplifications)",
+    "bridge/symgen_C08prod.py: chains of k generic operands (plain symbols in the expression, object arrays of distinct scalar symbols at run time); "
+    "dimension 2 for k up to 5 (quick) / 7 (thorough), dimension 4 for short chains - the generated einsum text does not depend on the dimension",
     "array operations are pointwise in the event axis (exercised with batch sizes 1/2/1000, not proved)",
 ]
 
@@ -12,11 +14,14 @@ def run(chk):
         "theorems are about exact real values; floating-point rounding (error ~ eps*gamma^2) is only looked at by the numeric harness",
         "boost of a momentum at rest is undefined in the code (0/0); proved as C08_boost_undefined_at_rest, outside the property's m>0, p!=0 domain",
     ]
-    standard_flow(chk, "symgen_C08.py", ["Gen_C08.v"], ["C08_lemmas.v"], "C08.v",
+    kmax = "7" if chk.tier == "thorough" else "5"
+    standard_flow(chk, "symgen_C08.py", ["Gen_C08.v", "Gen_C08prod.v"], ["C08_lemmas.v", "C08_products.v"], "C08.v",
                   "search_C08.py", 600, 20000,
                   "random momenta (beta*gamma 1e-6..3e4, random and axis-aligned directions), z boosts, rotation angles; "
                   "cse on/off x batch 1/2/1000; compared with a 60-digit textbook boost and the Lorentz identities; "
-                  "distinct = distinct generated inputs", coq_timeout=1200)
+                  "distinct = distinct generated inputs", coq_timeout=1200,
+                  extra_symgen=[("symgen_C08prod.py", "Gen_C08prod.v", [kmax])],
+                  stages=[["Gen_C08.v", "Gen_C08prod.v"], ["C08_lemmas.v", "C08_products.v"]])
 
 
 def replay(path):
